@@ -1646,9 +1646,14 @@ class AnsiString:
         split_idx_len = []
         idx = 0
         for s in str_splits:
-            idx = self._s.find(s, idx)
+            if sep is None:
+                # Whitespace separated - the next piece starts at its first occurrence
+                idx = self._s.find(s, idx)
             split_idx_len.append((idx, len(s)))
             idx += len(s)
+            if sep is not None:
+                # Pieces are separated by exactly one separator
+                idx += len(sep)
 
         ansi_str_splits = []
         for idx, length in split_idx_len:
